@@ -4,7 +4,8 @@ Histories — the per-operation theorems lifted to EVERY finite call history (th
 `SOp` is the single-container sub-language whose operations have refinement theorems (it grows with the proof
 families): push_back (of an outside value or of the container's own element i), pop_back, erase, erase(range), clear,
 reserve, shrink_to_fit, resize(n), resize(n, v), append(range), insert(end, n, v), insert(pos, v) / emplace(pos, v),
-insert(pos, T&&), insert(pos, v[i]), assign(n, v), assign(first, last).  A history is a list of (operation,
+insert(pos, T&&), insert(pos, v[i]), assign(n, v), assign(first, last),
+insert(pos, n, v) (also with v = own element), insert(pos, first, last).  A history is a list of (operation,
 fault list): the fault list is installed before the call, the call returns or throws, and the history continues from
 the world the call left behind — exactly how the harness drives the real container.
 
@@ -31,6 +32,7 @@ inductive SOp (α : Type) where
   | append (vs : List α) | insertEndN (n : Nat) (v : α)
   | insert (p : Nat) (v : α) | insertMove (p : Nat) (v : α) | insertSelf (p i : Nat)
   | assign (n : Nat) (v : α) | assignRange (vs : List α)
+  | insertN (p n : Nat) (v : α) | insertNSelf (p n i : Nat) | insertRange (p : Nat) (vs : List α)
 
 /-- API preconditions, in terms of the current size -/
 def SOp.valid (size : Nat) : SOp α → Prop
@@ -40,6 +42,9 @@ def SOp.valid (size : Nat) : SOp α → Prop
   | .eraseRange p q => p ≤ q ∧ q ≤ size
   | .insert p _ | .insertMove p _ => p ≤ size
   | .insertSelf p i => p ≤ size ∧ i < size
+  | .insertN p _ _ => p ≤ size
+  | .insertNSelf p _ i => p ≤ size ∧ i < size
+  | .insertRange p vs => p ≤ size ∧ vs ≠ []
   | _ => True
 
 /-- the model program of the call on container `c` (the aliasing source is resolved against the current buffer) -/
@@ -61,6 +66,9 @@ def SOp.run (cfg : Cfg) (c : Nat) (w : World α) : SOp α → M α Unit
   | .insertSelf p i => emplaceAt cfg c p (.copyOf (w.hdr c).data i) false >>= fun _ => pure ()
   | .assign n v => assignWithCopies cfg c n (.ext v)
   | .assignRange vs => assignWithRangeFwd cfg c (vs.map Src.ext)
+  | .insertN p n v => insertCopies cfg c p n (.ext v) >>= fun _ => pure ()
+  | .insertNSelf p n i => insertCopies cfg c p n (.copyOf (w.hdr c).data i) >>= fun _ => pure ()
+  | .insertRange p vs => insertRangeFwd cfg c p (vs.map Src.ext) >>= fun _ => pure ()
 
 /-- what std::vector does (Spec/L0.lean) -/
 def SOp.spec : SOp α → List (Val α) → List (Val α)
@@ -81,6 +89,9 @@ def SOp.spec : SOp α → List (Val α) → List (Val α)
   | .insertSelf p i, xs => (L0.insertAt xs p (xs.getD i .husk)).1
   | .assign n v, _ => L0.assignN n (.val v)
   | .assignRange vs, _ => L0.assignRange (vs.map Val.val)
+  | .insertN p n v, xs => (L0.insertN xs p n (.val v)).1
+  | .insertNSelf p n i, xs => (L0.insertN xs p n (xs.getD i .husk)).1
+  | .insertRange p vs, xs => (L0.insertRange xs p (vs.map Val.val)).1
 
 /-- operations with the strong exception guarantee (erase and erase(range) only have the basic one) -/
 def SOp.strong : SOp α → Bool
@@ -88,6 +99,7 @@ def SOp.strong : SOp α → Bool
   | .insertEndN _ _ => false     -- insert (end, n, x) is append_copies without the strong policy: basic guarantee
   | .insert _ _ | .insertMove _ _ | .insertSelf _ _ => false   -- strong only at the end position (C05.insert_at_end_strong)
   | .assign _ _ | .assignRange _ => false                      -- basic guarantee (strong only when it reallocates)
+  | .insertN _ _ _ | .insertNSelf _ _ _ | .insertRange _ _ => false
   | _ => true
 
 theorem pre_faults {cfg : Cfg} {w : World α} {c : Nat} (hp : Pre cfg w c) (f : List Nat) : Pre cfg { w with faults := f } c :=
@@ -317,6 +329,57 @@ theorem step_spec (cfg : Cfg) (c : Nat) (op : SOp α) (w : World α) (xs : List 
     | thrown e w' =>
       rw [hr] at hs
       exact ⟨C06.usable_after_throw cfg c w w' hp hs.1.1, fun h => by simp [SOp.strong] at h⟩
+  | insertN p n v =>
+    have ha : ArgOK cfg w c (.ext v) := ⟨rfl, fun _ _ h => by simp [Src.loc] at h, fun _ _ h => by simp [Src.loc] at h⟩
+    show match (insertCopies cfg c p n (.ext v) >>= fun _ => pure ()) w with | .ok _ w' => _ | .thrown _ w' => _
+    rw [run_discard]
+    have hs := insertCopies_sat cfg c p n (.ext v) w hp.vec hp.led hp.nmax hv ha hpol
+    cases hr : insertCopies cfg c p n (.ext v) w with
+    | ok r w' =>
+      rw [hr] at hs
+      exact ⟨C06.usable_after_throw cfg c w w' hp hs.2.1.basic, hs.2.1.holds xs hx⟩
+    | thrown e w' =>
+      rw [hr] at hs
+      exact ⟨C06.usable_after_throw cfg c w w' hp hs.1, fun h => by simp [SOp.strong] at h⟩
+  | insertNSelf p n i =>
+    have hi : i < xs.length := by rw [hlen]; exact hv.2
+    have hslot := hx.2 i hi
+    have ha : ArgOK cfg w c (.copyOf (w.hdr c).data i) :=
+      ⟨rfl, fun b j hl => by simp [Src.loc] at hl; obtain ⟨h1, h2⟩ := hl; subst h1; subst h2; exact ⟨_, hslot⟩,
+       fun b j hl => by simp [Src.loc] at hl; obtain ⟨h1, h2⟩ := hl; subst h1; subst h2; exact ⟨rfl, by rw [← hx.1]; exact hi⟩⟩
+    show match (insertCopies cfg c p n (.copyOf (w.hdr c).data i) >>= fun _ => pure ()) w with | .ok _ w' => _ | .thrown _ w' => _
+    rw [run_discard]
+    have hs := insertCopies_sat cfg c p n (.copyOf (w.hdr c).data i) w hp.vec hp.led hp.nmax hv.1 ha hpol
+    cases hr : insertCopies cfg c p n (.copyOf (w.hdr c).data i) w with
+    | ok r w' =>
+      rw [hr] at hs
+      refine ⟨C06.usable_after_throw cfg c w w' hp hs.2.1.basic, ?_⟩
+      have := hs.2.1.holds xs hx
+      rw [srcVal_copyOf w _ _ _ hslot] at this
+      show Holds w' c (L0.insertN xs p n (xs.getD i .husk)).1
+      rw [List.getD_eq_getElem?_getD, List.getElem?_eq_getElem hi]
+      exact this
+    | thrown e w' =>
+      rw [hr] at hs
+      exact ⟨C06.usable_after_throw cfg c w w' hp hs.1, fun h => by simp [SOp.strong] at h⟩
+  | insertRange p vs =>
+    have hlen' : 0 < (vs.map (Src.ext (α := α))).length := by
+      cases vs with
+      | nil => exact absurd rfl hv.2
+      | cons _ _ => simp
+    show match (insertRangeFwd cfg c p (vs.map Src.ext) >>= fun _ => pure ()) w with | .ok _ w' => _ | .thrown _ w' => _
+    rw [run_discard]
+    have hs := insertRangeFwd_sat cfg c p _ w hp.vec hp.led hp.nmax hv.1 hlen' (external_ext vs) hpol
+    cases hr : insertRangeFwd cfg c p (vs.map Src.ext) w with
+    | ok r w' =>
+      rw [hr] at hs
+      refine ⟨C06.usable_after_throw cfg c w w' hp hs.2.1.basic, ?_⟩
+      have := hs.2.1.holds xs hx
+      rw [map_srcVal_ext] at this
+      exact this
+    | thrown e w' =>
+      rw [hr] at hs
+      exact ⟨C06.usable_after_throw cfg c w w' hp hs.1, fun h => by simp [SOp.strong] at h⟩
 
 /-! ### histories -/
 
